@@ -60,8 +60,8 @@ def check_outcome(sc, o):
                 bad.append("receiver = node %r, expected one of %s (steepest unmasked lower neighbour)"
                            % (rec, sorted(ok_idx)))
         else:
-            n = [x for x in L if x.idx == rec][0]
-            if not (isinstance(dist, Sym) and dist.kind == "dist" and dist.tag == "n%d" % n.k):
+            tags = {"n%d" % x.k for x in L if x.idx == rec and x.slope_rep() == best}
+            if not (isinstance(dist, Sym) and dist.kind == "dist" and dist.tag in tags):
                 bad.append("stored distance %r is not the distance of the chosen neighbour" % (dist,))
     return bad
 
